@@ -90,21 +90,38 @@ Fixpoint eval_py (vals : list Z) (e : expr) : Z :=
       match o with ODiv => Z.div x y | _ => apply_math o x y end
   end.
 
-(* C++: both operands are converted (static_cast) to the type of the expression, the operation is done
-   in that type (wrap-around; signed overflow is undefined and modelled as wrap-around too), `/` truncates *)
-Fixpoint eval_cpp (env : list prim) (vals : list Z) (e : expr) : Z :=
+(* C++: both operands of a binary operator are converted (static_cast) to the type of the expression, the operation is done
+   in that type (wrap-around; signed overflow is undefined and modelled as wrap-around too), `/` truncates.  The unary minus
+   is applied to the operand as C++ sees it: an operand narrower than int is promoted to int first, so `-(x)` with
+   x: uint16 = 127 is the int -127 inside a larger expression; it only becomes 65409 when it is converted to uint16, which
+   happens when it is the whole computed field (the return type is the static type). *)
+Definition promote (t : prim) : prim :=
+  match t with
+  | PBool | PInt8 | PUint8 | PInt16 | PUint16 => PInt32
+  | _ => t
+  end.
+
+(* the value of a sub-expression, in its C++ type *)
+Fixpoint eval_cpp_in (env : list prim) (vals : list Z) (e : expr) : Z :=
   match e with
   | EField i => nth i vals 0
   | ELit z => z
   | ENeg a => match infer env a with
-              | Some t => wrap t (- eval_cpp env vals a)
+              | Some t => wrap (promote t) (- eval_cpp_in env vals a)
               | None => 0
               end
   | EBin o a b =>
       match infer env e with
-      | Some t => wrap t (apply_math o (wrap t (eval_cpp env vals a)) (wrap t (eval_cpp env vals b)))
+      | Some t => wrap t (apply_math o (wrap t (eval_cpp_in env vals a)) (wrap t (eval_cpp_in env vals b)))
       | None => 0
       end
+  end.
+
+(* the computed field: `return <expression>;` in a function whose return type is the static type *)
+Definition eval_cpp (env : list prim) (vals : list Z) (e : expr) : Z :=
+  match infer env e with
+  | Some t => wrap t (eval_cpp_in env vals e)
+  | None => 0
   end.
 
 (* every intermediate mathematical result fits the static type of its node *)
